@@ -211,12 +211,13 @@ func Run(opt Options) int {
 	}
 	cfg := interp.Config{
 		SolverCmd: solverCmd(), QueryTimeout: 10000, MaxSteps: 3_000_000, MaxPaths: 60000, MaxSymSize: 8,
-		Workers: opt.Workers, Verbose: opt.Verbose, Seed: opt.Seed, Thorough: thorough, DumpSMT: opt.DumpSMT,
+		Workers: opt.Workers, Verbose: opt.Verbose, Seed: opt.Seed, Thorough: thorough, DumpSMT: opt.DumpSMT, MaxPreemptions: 2,
 	}
 	if thorough {
 		cfg.QueryTimeout = 60000
 		cfg.MaxPaths = 1500000
 		cfg.MaxSteps = 20_000_000
+		cfg.MaxPreemptions = 3
 	}
 	if opt.PathBudget > 0 {
 		cfg.MaxPaths = opt.PathBudget
@@ -362,7 +363,14 @@ func Run(opt Options) int {
 						}
 					}
 				case "panic":
-					if r.Status == "panic" {
+					// a panic inside the harness goroutine, or one that killed the test process
+					if r.Status == "panic" || r.Status == "crashed" {
+						confirmed[c.file] = true
+					}
+				case "deadlock":
+					// the natively compiled harness does not finish (or the runtime itself
+					// reports that all goroutines are asleep)
+					if r.Status == "timeout" || (r.Status == "crashed" && strings.Contains(r.Panic, "deadlock")) {
 						confirmed[c.file] = true
 					}
 				default:
